@@ -53,7 +53,8 @@ def lonepair(cname, lig, order, parity):
     return s
 
 
-DB_SUBST = [("H", "F", "H", "F"), ("H", "F", "Cl", "Br"), ("H", "H", "F", "Cl"), ("F", "F", "Cl", "Cl"), ("H", "F", "H", None), ("H", None, "F", None)]
+DB_SUBST = [("H", "F", "H", "F"), ("H", "F", "Cl", "Br"), ("H", "H", "F", "Cl"), ("F", "F", "Cl", "Cl"), ("H", "F", "H", None), ("H", None, "F", None),
+            ("H", "F", "H", "Cl"), ("H", "Cl", "H", "Br")]
 
 
 def dbond(cname, sub, kind, order, parity):
